@@ -4,6 +4,7 @@ import re
 
 from engine import kinds
 from engine.facts import Site, Slicer, norm, operand_local, control_deps, last_field
+from engine.slicing import FlowSlicer
 
 CRATES = {"shuttle_engine", "shuttle_std", "shuttle"}
 EXPLANATION = (
@@ -317,10 +318,8 @@ def r3_guards(ctx):
     cd = control_deps(b)
     sw = [s for s, t in b.calls() if kinds.SWITCH in b.callees_of_call(t, passed=False)]
     if ctx.floor("C02.R3", "conditional switch in Acquire::poll", len(sw), 1):
-        labs = set()
-        for swb in cd.get(sw[0].bb, ()):
-            l, _ = sl.slice_operand(b.term(swb)["discr"])
-            labs |= l
+        # flow-sensitive: a value that is still computed but no longer part of the condition (`let x = fairness == ..;` left unused) does not count
+        labs = FlowSlicer(b).guard_labels(sw[0])
         need = {"field:shuttle_engine::future::batch_semaphore::BatchSemaphore.fairness": "the semaphore's fairness",
                 "field:shuttle_engine::future::batch_semaphore::Acquire.never_polled": "never_polled",
                 "call:shuttle_engine::future::batch_semaphore::BatchSemaphore::available_permits": "available_permits()",
